@@ -168,7 +168,7 @@ FLEET['G6'] = dict(
     terms=[
         # long names sharing a 15-character prefix: terms are told apart by their full names
         ('item', T('custom', '', 'custom_lexeme_t_item', typed=True)),
-        ('sep', T('custom', '', 'custom_lexeme_t_separator', typed=True)),
+        ('sep', T('custom', '', 'custom_lexeme_t_separator', typed='sv')),       # functor returning std::string_view itself
         ('open', T('custom', '', 'custom_lexeme_t_bracket_of_kindo', typed=True)),      # exactly 32 characters, and ...
         ('close', T('custom', '', 'custom_lexeme_t_bracket_of_kindc', typed=True)),     # ... differing from its sibling in the LAST one only
         ('end', T('custom', '', 'custom_lexeme_t_end', typed=True)),
@@ -571,7 +571,7 @@ FLEET['G20'] = dict(
 # with error rules: the value variant then holds both no_type (the error symbol's value) and term_value<no_type>
 FLEET['G21'] = dict(
     terms=[
-        ('num', T('regex', '[0-9]+', 'num', typed=True)),
+        ('num', T('regex', '[0-9]+', 'num', typed='sv')),
         ('semi', T('char', ';', typed='no_type')),
         ('plus', T('char', '+', typed='no_type')),
     ],
